@@ -677,6 +677,90 @@ fn build(w: &[&str]) -> Option<(Vec<u8>, Vec<Check>)> {
         }
         return Some((m.seal(addr), cks));
     }
+    // air-air surveillance replies (Annex 10 §3.1.2.8.2 / .3):
+    //   DF 0 : 1–5 DF | 6 VS | 7 CC | 8 spare | 9–11 SL | 12–13 spare | 14–17 RI | 18–19 spare | 20–32 AC | 33–56 AP
+    //   DF 16: 1–5 DF | 6 VS | 7–8 spare | 9–11 SL | 12–13 spare | 14–17 RI | 18–19 spare | 20–32 AC | 33–88 MV | 89–112 AP
+    if w.first() == Some(&"air") {
+        let df = p_u(w.get(1)?)?;
+        if w.len() != 9 {
+            return None;
+        }
+        let (m, ck_, cv, addr) = match df {
+            0 => {
+                let (vs, cc, sl, ri) = (p_u(w[2])?, p_u(w[3])?, p_u(w[4])?, p_u(w[5])?);
+                if vs > 1 || cc > 1 || sl > 7 || ri > 15 {
+                    return None;
+                }
+                let mut m = Msg::new(7);
+                m.put(6, 1, vs);
+                m.put(7, 1, cc);
+                m.put(9, 3, sl);
+                m.put(14, 4, ri);
+                // VS, CC, SL, RI of DF 0 are not serialised (`serde(skip)`)
+                (m, w[6], w[7], p_u(w[8])? as u32)
+            }
+            16 => {
+                let (vs, sl, ri) = (p_u(w[2])?, p_u(w[3])?, p_u(w[4])?);
+                if vs > 1 || sl > 7 || ri > 15 {
+                    return None;
+                }
+                let mv = unhex(w[8])?;
+                if mv.len() != 7 {
+                    return None;
+                }
+                let mut m = Msg::new(14);
+                m.put(1, 5, 16);
+                m.put(6, 1, vs);
+                m.put(9, 3, sl);
+                m.put(14, 4, ri);
+                for (k, b) in mv.iter().enumerate() {
+                    m.put_me(1 + 8 * k, 8, *b as u64);
+                }
+                cks.push(ck(&["vs"], Exp::Int(vs as i64), "air-acas-field"));
+                cks.push(ck(&["sl"], Exp::Int(sl as i64), "air-acas-field"));
+                cks.push(ck(&["ri"], Exp::Int(ri as i64), "air-acas-field"));
+                (m, w[5], w[6], p_u(w[7])? as u32)
+            }
+            _ => return None,
+        };
+        let mut m = m;
+        if ck_ == "s" || addr >= 1 << 24 {
+            return None;
+        }
+        let alt = p_i(cv)?;
+        m.put(20, 13, ac13_of(ck_, alt)? as u64);
+        cks.push(ck(&["df"], Exp::Str(df.to_string()), "air-df"));
+        cks.push(ck(&["icao24"], Exp::Str(format!("{addr:06x}")), "air-address"));
+        match true_alt(ck_, alt) {
+            Some(a) => {
+                let mut c = ck(&["altitude"], Exp::Int(a), "air-altitude");
+                c.quirk = alt_quirk(ck_, a, Exp::Int(0));
+                cks.push(c)
+            }
+            None => cks.push(ck(&["altitude"], Exp::Int(0), "air-altitude-sentinel")),
+        }
+        return Some((m.seal(addr), cks));
+    }
+    // all-call reply (§3.1.2.5.2.2): 1–5 DF = 11 | 6–8 CA | 9–32 AA | 33–56 PI = parity overlaid with the interrogator code
+    if w.first() == Some(&"allcall") {
+        if w.len() != 4 {
+            return None;
+        }
+        let (ca, aa, ic) = (p_u(w[1])?, p_u(w[2])?, p_u(w[3])?);
+        if ca > 7 || aa >= 1 << 24 || ic >= 1 << 24 {
+            return None;
+        }
+        let mut m = Msg::new(7);
+        m.put(1, 5, 11);
+        m.put(6, 3, ca);
+        m.put(9, 24, aa);
+        cks.push(ck(&["df"], Exp::Str("11".into()), "allcall-df"));
+        cks.push(ck(&["icao24"], Exp::Str(format!("{aa:06x}")), "allcall-address"));
+        // Annex 10 §3.1.2.5.2.2.1: CA 0 level 1, 1–3 reserved, 4 level 2+ on the ground, 5 airborne, 6 either, 7 DR≠0 / FS 2–5
+        let cap = ["level1", "AG_RESERVED", "AG_RESERVED", "AG_RESERVED", "ground", "airborne", "ground/airborne", "AG_DR0"][ca as usize];
+        cks.push(ck(&["capability"], Exp::Str(cap.into()), "allcall-capability"));
+        return Some((m.seal(ic as u32), cks));
+    }
     let kind = *w.first()?;
     if !ES_KINDS.contains(&kind) {
         return None;
@@ -729,7 +813,7 @@ fn run_case(out: &mut Out, words: &[String], correspond: bool) {
     if correspond {
         out.case(&format!("dec {}", hex(&frame)), &dec_answer(&d));
     }
-    out.stat(&format!("kind:{}{}", w[0], if w[0] == "surv" { format!(":df{}:{}", w[1], w.get(8).unwrap_or(&"")) } else { format!(":df{}", w[1]) }));
+    out.stat(&format!("kind:{}{}", w[0], if w[0] == "allcall" { String::new() } else if w[0] == "surv" { format!(":df{}:{}", w[1], w.get(8).unwrap_or(&"")) } else { format!(":df{}", w[1]) }));
     match &d {
         Dec::Json(j) => {
             let v: Value = match serde_json::from_str(j) {
@@ -864,6 +948,18 @@ fn tss(rng: &mut Rng, alt: i64, qnh: i64, hst: u64, hdg: u64) -> Vec<String> {
     for _ in 0..8 {
         w.push(s(rng.below(2)));
     }
+    w
+}
+
+/// DF 0 with the given altitude, the other fields random
+fn air0(rng: &mut Rng, ak: &str, alt: i64, addr: Option<u64>) -> Vec<String> {
+    vec![s("air"), s(0), s(rng.below(2)), s(rng.below(2)), s(rng.below(8)), s(rng.below(16)), s(ak), s(alt), s(addr.unwrap_or_else(|| rng.below(1 << 24)))]
+}
+
+/// DF 16 with the given altitude, the other fields and the MV content random
+fn air16(rng: &mut Rng, ak: &str, alt: i64, addr: Option<u64>) -> Vec<String> {
+    let mut w = vec![s("air"), s(16), s(rng.below(2)), s(rng.below(8)), s(rng.below(16)), s(ak), s(alt), s(addr.unwrap_or_else(|| rng.below(1 << 24)))];
+    w.push(hex(&rng.bytes(7)));
     w
 }
 
@@ -1243,6 +1339,47 @@ pub fn run(out: &mut Out, rng: &mut Rng, thorough: bool) {
         cases.push(w);
     }
 
+    // ---- air-air surveillance replies DF 0 / DF 16: all 2^11 25-ft codes and all 1280 Gillham steps in the AC field
+    //      behind random VS / CC / SL / RI, random MV content, random address; boundary addresses; DF 11: every
+    //      capability x boundary and random announced addresses x interrogator codes (0 = squitter, II/SI codes, any)
+    for (kind, alts) in [("q", (0..2048i64).map(|n| 25 * n - 1000).collect::<Vec<_>>()), ("g", (0..1280i64).map(|st| 100 * st - 1200).collect())] {
+        for alt in alts {
+            cases.push(air0(rng, kind, alt, None));
+            cases.push(air16(rng, kind, alt, None));
+        }
+    }
+    let mut addrs: Vec<u64> = vec![0, 1, 0xffffff, 0x800000, 0x7fffff, 0xabcdef, 0x555555, 0xaaaaaa];
+    for _ in 0..100 {
+        addrs.push(rng.below(1 << 24));
+    }
+    for &addr in &addrs {
+        let (k, a) = rand_alt(rng);
+        cases.push(air0(rng, k, a, Some(addr)));
+        let (k, a) = rand_alt(rng);
+        cases.push(air16(rng, k, a, Some(addr)));
+        for ca in 0..8u64 {
+            let ic = match ca % 4 {
+                0 => 0,
+                1 => rng.below(128),
+                2 => rng.below(1 << 24),
+                _ => *rng.pick(&[1u64, 15, 16, 79, 127, 0xffffff]),
+            };
+            cases.push(vec![s("allcall"), s(ca), s(addr), s(ic)]);
+        }
+    }
+    // every VS / CC / SL / RI value, all-zero and all-ones MV
+    for vs in 0..2u64 {
+        for sl in 0..8u64 {
+            for ri in 0..16u64 {
+                let (k, a) = rand_alt(rng);
+                cases.push(vec![s("air"), s(0), s(vs), s(rng.below(2)), s(sl), s(ri), s(k), s(a), s(rng.below(1 << 24))]);
+                let (k, a) = rand_alt(rng);
+                let mv = match ri % 3 { 0 => "00000000000000".to_string(), 1 => "ffffffffffffff".to_string(), _ => hex(&rng.bytes(7)) };
+                cases.push(vec![s("air"), s(16), s(vs), s(sl), s(ri), s(k), s(a), s(rng.below(1 << 24)), mv]);
+            }
+        }
+    }
+
     for c in &cases {
         run_case(out, c, true);
     }
@@ -1345,6 +1482,18 @@ pub fn run(out: &mut Out, rng: &mut Rng, thorough: bool) {
         raw(out, rng, w.clone(), 24, 11);
         raw(out, rng, w.clone(), 35, 11);
         raw(out, rng, w, 46, 11);
+        // the AC field of DF 0 / 16: all 2^13 codes
+        for w in [air0(rng, "z", 0, None), air16(rng, "z", 0, None)] {
+            let ws: Vec<&str> = w.iter().map(|s| s.as_str()).collect();
+            if let Some((f, _)) = build(&ws) {
+                let addr = ws[if ws[1] == "0" { 8 } else { 7 }].parse::<u32>().unwrap();
+                for code in 0..8192u64 {
+                    let g = overwrite(&f, 20, 13, code, addr);
+                    let (d, _) = decode_json(&g);
+                    out.case(&format!("dec {}", hex(&g)), &dec_answer(&d));
+                }
+            }
+        }
         // the AC / ID field of DF 4 / 5 / 20 / 21: all 2^13 codes (metric and illegal Gillham codes included)
         for df in [4u64, 5, 20, 21] {
             let mut w = surv_prefix(rng, df, "z", s(0));
@@ -1411,5 +1560,5 @@ pub fn run(out: &mut Out, rng: &mut Rng, thorough: bool) {
         out.stat_n("velocity-square-oracle-only", n);
         out.exhaustive.push("BDS 0,9 subtypes 1 and 2: all 2x1023 x 2x1023 velocity code pairs of each through the real decoder (oracle)".into());
     }
-    out.exhaustive.push("all 2^11 25-ft altitude codes and all 1280 Gillham steps in BDS 0,5, DF4 and DF20; all 4096 squawks in DF5, DF21 and BDS 6,1; 36 characters x 8 positions (and all 64 codes x 8 positions for the model) in BDS 0,8 and BDS 2,0; every 1/8-kt surface speed up to 200 kt (all movement codes); 128 x 2 surface tracks; 1023 codes of each velocity component x 2 directions (subtypes 1 and 2); 2 x 511 vertical rates; 2 x 127 GNSS/baro differences; 1024 headings and 1023 airspeeds of subtypes 3 and 4; BDS 6,2 selected altitudes on the 100 ft grid, 511 pressure codes, 512 headings; BDS 4,0 altitudes on the 100 ft grid up to 45 000 ft and 4096 pressure codes; every valid code of each BDS 5,0 / 6,0 field".into());
+    out.exhaustive.push("all 2^11 25-ft altitude codes and all 1280 Gillham steps in BDS 0,5, DF0, DF4, DF16 and DF20; all 4096 squawks in DF5, DF21 and BDS 6,1; 36 characters x 8 positions (and all 64 codes x 8 positions for the model) in BDS 0,8 and BDS 2,0; every 1/8-kt surface speed up to 200 kt (all movement codes); 128 x 2 surface tracks; 1023 codes of each velocity component x 2 directions (subtypes 1 and 2); 2 x 511 vertical rates; 2 x 127 GNSS/baro differences; 1024 headings and 1023 airspeeds of subtypes 3 and 4; BDS 6,2 selected altitudes on the 100 ft grid, 511 pressure codes, 512 headings; BDS 4,0 altitudes on the 100 ft grid up to 45 000 ft and 4096 pressure codes; every valid code of each BDS 5,0 / 6,0 field".into());
 }
